@@ -78,7 +78,12 @@ META['rule'] += ('; fragments: records of tasks sharing a source made to diverge
                  'known by construction: skipped => not in the set (C03), executed => in the set (C04)); group scenario '
                  'family with the same kind of monitor: a task generator yielding 0 (EMPTY group) / 1 / 2 sub-tasks as source '
                  'of result_dep and of getargs+task_dep consumers; in the modelled histories 20% of the non-first tasks get '
-                 'getargs from an earlier task together with an explicit task_dep on it (= the implicit result_dep item)')
+                 'getargs from an earlier task together with an explicit task_dep on it (= the implicit result_dep item); '
+                 'opt-in rich alphabet (statuslib.enrich): user-defined checker classes made at module level / by a factory '
+                 'function, uptodate callables returning non-bool values (0, "", [], 1, "x", [0]), the EMPTY file with '
+                 'touch / rewrite; scenario families config_changed(dict) (same object over several runs of one process; '
+                 'object shared by two tasks over a dict a third task fills at run time) and dict results (tuple / int keys '
+                 '/ nested tuple / plain / string) of an always-executed source feeding result_dep and getargs consumers')
 META['level_note'] += ('  The ghost `saw` of an execution is the file system AFTER the action ran (what save_success '
                        'reads), so an action that rewrites its own file_dep is judged against the content it left.  '
                        'An exact restore of an older (content, mtime) pair is not in the model\'s alphabet (edits always '
